@@ -41,6 +41,12 @@ def gen_pipes(rnd, n):
                    "post": [nxt() for _ in range(rnd.choice([0, 1, 1, 2]))],
                    "fins": [nxt() for _ in range(rnd.choice([0, 0, 1, 2]))],
                    "vars": {rnd.choice(["v", "w"]): nxt() for _ in range(rnd.choice([0, 1, 2]))}})
+    if n >= 2 and rnd.random() < 0.25:
+        # two pipelines that contain an item / post-processing item / finalizer with the SAME definition: concatenation keeps both
+        a, b = rnd.sample(range(n), 2)
+        for part in ("items", "post", "fins"):
+            if ps[a][part] and rnd.random() < 0.7:
+                ps[b][part] = ps[b][part] + [ps[a][part][0]]
     return ps
 
 
@@ -67,6 +73,9 @@ def gen_cases(tier, seed, gen, effort):
             # same backend object served the other output format run backend + user + the pipeline of the REQUESTED format
             cases.append({"op": "init", "pipes": ps[:3], "via": rnd.choice(["convert", "rule", "rule"]), "target": rnd.choice(["default", "alt"]),
                           "history": rnd.choice([None, "convert", "rule"])})
+            # `convert` assembles the pipeline anew on every call: also after the user replaced `backend.processing_pipeline` on a used backend
+            # (`convert_rule` is documented to initialise only "if not already done": not judged for this history)
+            cases.append({"op": "init", "pipes": ps[:3], "via": "convert", "target": rnd.choice(["default", "alt"]), "history": "swapuser"})
     return cases, False
 
 
@@ -96,6 +105,11 @@ def observe(backend_cls, pipeline, user=True, first_format=None, via="convert", 
     doc = {"title": "t", "logsource": {"category": "c"}, "detection": {"sel": {"f": "v"}, "condition": "sel"}}
     coll = SigmaCollection.from_dicts([doc])
     b = backend_cls(pipeline) if user else backend_cls()
+    if first_via == "swapuser":       # history: the same backend object converted (same format) with ANOTHER user pipeline, which was then replaced
+        b = backend_cls(build({"name": "olduser", "priority": 0, "items": [95], "post": [96], "fins": [], "vars": {"w": 94}}))
+        b.convert(SigmaCollection.from_dicts([doc]), target) if target is not None else b.convert(SigmaCollection.from_dicts([doc]))
+        b.processing_pipeline = pipeline
+        first_format = None
     if first_format is not None:      # history: the same backend object converted with another output format before
         if first_via == "rule":
             b.convert_rule(SigmaCollection.from_dicts([doc]).rules[0], first_format)
@@ -156,9 +170,10 @@ def run_impl(case):
             B2 = type("InitB", (B,), {"backend_processing_pipeline": b, "formats": {"default": "d", "alt": "a"},
                                       "output_format_processing_pipeline": defaultdict(ProcessingPipeline, **fmts),
                                       "finalize_query_alt": lambda self, rule, query, index, state: query,
-                                      "finalize_output_alt": lambda self, queries: queries})
+                                      # the second format's output step returns ONE document (a string), not a list: finalizers still run on it
+                                      "finalize_output_alt": lambda self, queries: ";".join(map(str, queries))})
             if "via" in case:
-                return {"outcome": "ok", "obs": observe(B2, u, first_format=({"default": "alt", "alt": "default"}[target] if case.get("history") else None),
+                return {"outcome": "ok", "obs": observe(B2, u, first_format=({"default": "alt", "alt": "default"}[target] if case.get("history") in ("convert", "rule") else None),
                                                         via=case["via"], target=target, first_via=case.get("history") or "convert")}
             return {"outcome": "ok", "obs": observe(B2, u, first_format="alt" if case.get("history") else None)}
     except Exception as e:
@@ -199,7 +214,8 @@ def judge(case, impl, reply):
         if got != want_:
             which = [k for k in want_ if got[k] != want_[k]]
             how = (f" via {'convert_rule(rule' if case['via'] == 'rule' else 'convert(collection'}, {case['target']!r})"
-                   + (f" after {'convert_rule' if case.get('history') == 'rule' else 'convert'} with the other output format on the same backend object" if case.get("history") else " on a fresh backend")) if "via" in case else \
+                   + (" after a conversion with another user pipeline that was then replaced (backend.processing_pipeline = …)" if case.get("history") == "swapuser" else
+                      f" after {'convert_rule' if case.get('history') == 'rule' else 'convert'} with the other output format on the same backend object" if case.get("history") else " on a fresh backend")) if "via" in case else \
                   (" (the backend object converted with output format alt first)" if case.get("history") else "")
             return Verdict("violation", (f"{label}{case['op']}{how} {case.get('tree') or case.get('order') or ''} of "
                                          f"{[(p['name'], p['priority'], p['items'], p['post'], p['fins'], p['vars']) for p in case['pipes']]}: "
@@ -208,6 +224,6 @@ def judge(case, impl, reply):
         if not rule_only and obs.get("fins_empty") != want["fins"]:
             return Verdict("violation", (f"{label}{case['op']}: converting an empty collection gives {obs.get('text_empty')!r}: finalizers {obs.get('fins_empty')} ran, "
                                          f"but the composed pipeline's finalizers {want['fins']} run once on the whole (here empty) list"), nt, key, tags=tags)
-        if obs["applied"] != sorted([f"i{k}" for k in want["items"]] + [f"q{k}" for k in want["post"]]):
+        if obs["applied"] != sorted(set([f"i{k}" for k in want["items"]] + [f"q{k}" for k in want["post"]])):
             return Verdict("violation", f"{label}applied item identifiers {obs['applied']} do not match the composed items {want['items']} / {want['post']}", nt, key, tags=tags)
     return Verdict("ok", "", nt, key, tags=tags)
